@@ -7,6 +7,49 @@ Import ListNotations.
 Open Scope Z_scope.
 Ltac Zify.zify_post_hook ::= Z.to_euclidean_division_equations.
 
+Lemma prod_le0 x y : 0 < y -> x * y <= 0 -> x <= 0.
+Proof. intros. nia. Qed.
+Lemma prod_ge0 x y : 0 < y -> 0 <= x * y -> 0 <= x.
+Proof. intros. nia. Qed.
+
+(* a/b with b < Q2 + q1 cannot lie strictly between the Farey neighbours P2/Q2 and p1/q1 *)
+Lemma farey_gap sg b u v Q2 q1 d r d0 eb :
+  (sg = 1 \/ sg = -1) -> 0 < q1 -> 0 < Q2 -> 0 < d -> 0 < r -> 0 < d0 -> 1 <= b -> b < Q2 + q1 ->
+  sg * b = Q2 * u + q1 * v ->
+  eb * q1 = b * (- sg * d) + d0 * u ->
+  eb * Q2 = b * (sg * r) - d0 * v ->
+  d * b <= Z.abs eb * q1 \/ r * b <= Z.abs eb * Q2.
+Proof.
+  intros Hs Hq1 HQ2 Hd Hr Hd0 Hb Hsum Euv Eb1 Eb2.
+  assert (Hdb : 0 <= d * b) by (apply Z.mul_nonneg_nonneg; lia).
+  assert (Hrb : 0 <= r * b) by (apply Z.mul_nonneg_nonneg; lia).
+  destruct Hs as [-> | ->].
+  - destruct (Z_le_gt_dec u 0) as [Hu|Hu].
+    + left. assert (d0 * u <= 0) by (apply Z.mul_nonneg_nonpos; lia).
+      assert (H1 : eb * q1 <= - (d * b)) by lia.
+      assert (eb <= 0) by (apply (prod_le0 eb q1); lia).
+      rewrite Z.abs_neq by assumption. lia.
+    + destruct (Z_le_gt_dec v 0) as [Hv|Hv].
+      * right. assert (d0 * v <= 0) by (apply Z.mul_nonneg_nonpos; lia).
+        assert (H1 : r * b <= eb * Q2) by lia.
+        assert (0 <= eb) by (apply (prod_ge0 eb Q2); lia).
+        rewrite Z.abs_eq by assumption. lia.
+      * exfalso. assert (Q2 * 1 <= Q2 * u) by (apply Z.mul_le_mono_nonneg_l; lia).
+        assert (q1 * 1 <= q1 * v) by (apply Z.mul_le_mono_nonneg_l; lia). lia.
+  - destruct (Z_le_gt_dec 0 u) as [Hu|Hu].
+    + left. assert (0 <= d0 * u) by (apply Z.mul_nonneg_nonneg; lia).
+      assert (H1 : d * b <= eb * q1) by lia.
+      assert (0 <= eb) by (apply (prod_ge0 eb q1); lia).
+      rewrite Z.abs_eq by assumption. lia.
+    + destruct (Z_le_gt_dec 0 v) as [Hv|Hv].
+      * right. assert (0 <= d0 * v) by (apply Z.mul_nonneg_nonneg; lia).
+        assert (H1 : eb * Q2 <= - (r * b)) by lia.
+        assert (eb <= 0) by (apply (prod_le0 eb Q2); lia).
+        rewrite Z.abs_neq by assumption. lia.
+      * exfalso. assert (Q2 * u <= Q2 * (-1)) by (apply Z.mul_le_mono_nonneg_l; lia).
+        assert (q1 * v <= q1 * (-1)) by (apply Z.mul_le_mono_nonneg_l; lia). lia.
+Qed.
+
 Section Loop.
 Variables n0 d0 maxd W : Z.
 Hypothesis Hn0 : 0 <= n0.
@@ -95,6 +138,71 @@ Proof.
     + destruct (linv_step _ _ _ _ _ _ I Hle) as [I' Hdec]. apply IH; [assumption|lia].
 Qed.
 
+(* at the exit of the loop the two candidates are Farey neighbours around n0/d0 whose denominators add up
+   to more than maxd: nothing with a denominator <= maxd is closer than the closer of the two *)
+Lemma closest_at_exit p0 q0 p1 q1 n d : linv p0 q0 p1 q1 n d -> maxd < q0 + (n / d) * q1 ->
+  let k := (maxd - q0) / q1 in
+  let P2 := p0 + k * p1 in let Q2 := q0 + k * q1 in
+  let pr := if 2 * d * Q2 <=? d0 then p1 else P2 in
+  let qr := if 2 * d * Q2 <=? d0 then q1 else Q2 in
+  forall a b, 1 <= b <= maxd ->
+  Z.abs (n0 * qr - d0 * pr) * b <= Z.abs (n0 * b - d0 * a) * qr.
+Proof.
+  intros I Hexit k P2 Q2 pr qr a b Hb.
+  destruct I as [In Id Iq0 Iq1 Ip Ind Igt Ist IW Idet]. destruct Ind as [Hn Hd].
+  assert (Hq1 : 0 < q1).
+  { destruct (Z.eq_dec q1 0) as [E|]; [|lia]. destruct (Ist E) as (E1 & _). rewrite E1, E in Hexit. lia. }
+  specialize (Igt Hq1).
+  assert (Hk0 : 0 <= k) by (apply Z.div_pos; lia).
+  assert (Hk1 : q0 + k * q1 <= maxd < q0 + (k + 1) * q1).
+  { unfold k. pose proof (Z.mul_div_le (maxd - q0) q1 Hq1). pose proof (Z.mod_pos_bound (maxd - q0) q1 Hq1).
+    pose proof (Z.div_mod (maxd - q0) q1 ltac:(lia)). lia. }
+  assert (Hka : k < n / d) by nia.
+  set (r := n - k * d).
+  assert (Hr : 0 < r).
+  { unfold r. pose proof (Z.mul_div_le n d Hd). assert ((k + 1) * d <= n / d * d) by nia. nia. }
+  assert (HQ2 : 1 <= Q2).
+  { unfold Q2. destruct (Z.eq_dec q0 0) as [E|]; [|nia].
+    assert (1 <= k) by (unfold k; apply Z.div_le_lower_bound; lia). nia. }
+  set (sg := p1 * q0 - p0 * q1) in *.
+  assert (E1 : n0 * q1 - d0 * p1 = - sg * d) by (rewrite In, Id; unfold sg; ring).
+  assert (E2 : n0 * Q2 - d0 * P2 = sg * r) by (rewrite In, Id; unfold sg, r, Q2, P2; ring).
+  assert (Ed0 : d0 = q1 * r + d * Q2) by (rewrite Id; unfold r, Q2; ring).
+  set (u := p1 * b - a * q1). set (v := a * Q2 - P2 * b).
+  assert (Euv : sg * b = Q2 * u + q1 * v) by (unfold sg, u, v, Q2, P2; ring).
+  set (eb := n0 * b - d0 * a).
+  assert (Eb1 : eb * q1 = b * (n0 * q1 - d0 * p1) + d0 * u) by (unfold eb, u; ring).
+  assert (Eb2 : eb * Q2 = b * (n0 * Q2 - d0 * P2) - d0 * v) by (unfold eb, v; ring).
+  rewrite E1 in Eb1. rewrite E2 in Eb2.
+  assert (Hd0p : 0 < d0) by lia.
+  assert (Hsum : maxd < Q2 + q1) by (unfold Q2; lia).
+  (* one of the two candidates is at least as close as a/b *)
+  assert (Hsg : sg = 1 \/ sg = -1) by lia.
+  assert (Hone : d * b <= Z.abs eb * q1 \/ r * b <= Z.abs eb * Q2).
+  { apply (farey_gap sg b u v Q2 q1 d r d0 eb); try assumption; try lia. }
+  assert (A1 : Z.abs (n0 * q1 - d0 * p1) = d).
+  { rewrite E1. destruct (Z.abs_spec sg) as [[Hs Es]|[Hs Es]]; rewrite Es in Idet.
+    - assert (sg = 1) by lia. rewrite H. rewrite Z.abs_neq by lia. lia.
+    - assert (sg = -1) by lia. rewrite H. rewrite Z.abs_eq by lia. lia. }
+  assert (A2 : Z.abs (n0 * Q2 - d0 * P2) = r).
+  { rewrite E2. destruct (Z.abs_spec sg) as [[Hs Es]|[Hs Es]]; rewrite Es in Idet.
+    - assert (sg = 1) by lia. rewrite H. rewrite Z.abs_eq by lia. lia.
+    - assert (sg = -1) by lia. rewrite H. rewrite Z.abs_neq by lia. lia. }
+  fold eb. set (X := Z.abs eb) in *. assert (0 <= X) by apply Z.abs_nonneg.
+  unfold pr, qr. destruct (Z.leb_spec (2 * d * Q2) d0) as [Hdec|Hdec].
+  - (* bound1 chosen: d * Q2 <= q1 * r *)
+    rewrite A1. assert (Hc : d * Q2 <= q1 * r) by lia.
+    destruct Hone as [H1|H2]; [assumption|].
+    apply (mul_cancel_le Q2); [lia|].
+    assert (d * Q2 * b <= q1 * r * b) by (apply Z.mul_le_mono_nonneg_r; lia).
+    assert (q1 * (r * b) <= q1 * (X * Q2)) by (apply Z.mul_le_mono_nonneg_l; lia). lia.
+  - rewrite A2. assert (Hc : q1 * r < d * Q2) by lia.
+    destruct Hone as [H1|H2]; [|assumption].
+    apply (mul_cancel_le q1); [lia|].
+    assert (q1 * r * b <= d * Q2 * b) by (apply Z.mul_le_mono_nonneg_r; lia).
+    assert (Q2 * (d * b) <= Q2 * (X * q1)) by (apply Z.mul_le_mono_nonneg_l; lia). lia.
+Qed.
+
 End Loop.
 
 (* reduced fraction *)
@@ -146,6 +254,34 @@ Proof.
       * assert (0 <= n0 / d0) by (apply Z.div_pos; lia). nia.
 Qed.
 
+(* ... and it is a closest fraction to n0/d0 among all fractions with a denominator <= maxd *)
+Lemma limit_denominator_closest n0 d0 maxd p q : 0 <= n0 -> 0 < d0 -> 1 <= maxd ->
+  limit_denominator n0 d0 maxd = Some (p, q) ->
+  forall a b, 1 <= b <= maxd -> Z.abs (n0 * q - d0 * p) * b <= Z.abs (n0 * b - d0 * a) * q.
+Proof.
+  intros Hn Hd Hmax El a b Hb. unfold limit_denominator in El.
+  pose proof (reduce_spec n0 d0 Hn Hd) as (Hg & En & Ed & Hrn & Hrd & Hgcd & Hfloor). cbv zeta in *.
+  set (g := Z.gcd n0 d0) in *. set (n := n0 / g) in *. set (d := d0 / g) in *.
+  destruct (Z.leb_spec d maxd) as [Hsmall|Hbig].
+  - inversion El. subst p q. replace (n0 * d - d0 * n) with 0 by (rewrite En, Ed; fold n d; ring).
+    rewrite Z.abs_0, Z.mul_0_l. apply Z.mul_nonneg_nonneg; [apply Z.abs_nonneg|lia].
+  - assert (Hfuel : mu maxd 1 0 < Z.of_nat (Z.to_nat (2 * maxd + 4))) by (unfold mu; change (1 =? 0) with false; cbv iota; lia).
+    pose proof (limit_loop_ok n d maxd (n / d) Hrn Hbig Hmax Hgcd eq_refl _ _ _ _ _ _ _ (linv_init n d maxd (n / d) Hrn Hbig Hmax) Hfuel)
+      as Hloop.
+    destruct Hloop as (p0 & q0 & p1 & q1 & n' & d' & El' & I & Hexit).
+    rewrite El' in El.
+    pose proof (closest_at_exit n d maxd (n / d) Hrn Hbig Hmax eq_refl p0 q0 p1 q1 n' d' I Hexit a b Hb) as Hc.
+    cbv zeta in Hc.
+    assert (Hres : p = (if 2 * d' * (q0 + (maxd - q0) / q1 * q1) <=? d then p1 else p0 + (maxd - q0) / q1 * p1) /\
+                   q = (if 2 * d' * (q0 + (maxd - q0) / q1 * q1) <=? d then q1 else q0 + (maxd - q0) / q1 * q1)).
+    { destruct (2 * d' * (q0 + (maxd - q0) / q1 * q1) <=? d); inversion El; split; reflexivity. }
+    destruct Hres as [Ep Eq]. rewrite <- Ep, <- Eq in Hc.
+    replace (n0 * q - d0 * p) with (g * (n * q - d * p)) by (rewrite En, Ed; fold n d; ring).
+    replace (n0 * b - d0 * a) with (g * (n * b - d * a)) by (rewrite En, Ed; fold n d; ring).
+    rewrite !Z.abs_mul, (Z.abs_eq g) by lia. rewrite <- !Z.mul_assoc.
+    apply Z.mul_le_mono_nonneg_l; [lia|assumption].
+Qed.
+
 (* digit-limited fraction formats *)
 Lemma fraction_digits_lemma is_int d acc : 0 <= dmant d ->
   Z.land acc 4278190080 <> 0 -> 0 <= 4294967296 - acc -> 1 <= 10 ^ (4294967296 - acc) - 1 ->
@@ -156,7 +292,8 @@ Lemma fraction_digits_lemma is_int d acc : 0 <= dmant d ->
     limit_denominator vn vd maxd = Some (p, q) /\ 1 <= q <= maxd /\
     format_fraction is_int d acc = Ok s /\ readback_fraction s = Some (neg, w, a, b) /\
     0 < b /\ (w * b + a) * q = p * b /\ (a = 0 \/ b = q) /\
-    (neg = true -> is_neg d = true) /\ (is_neg d = true -> neg = false -> p = 0).
+    (neg = true -> is_neg d = true) /\ (is_neg d = true -> neg = false -> p = 0) /\
+    (forall a' b', 1 <= b' <= maxd -> Z.abs (vn * q - vd * p) * b' <= Z.abs (vn * b' - vd * a') * q).
 Proof.
   intros Hm Hl Hk Hmax. cbv zeta. unfold format_fraction, fraction_abs.
   pose proof (value_rat_pos is_int (dmant d) (dexp d)) as Hv.
@@ -174,6 +311,7 @@ Proof.
   assert (Hval' : (w * b + a) * q = p * b) by (rewrite Hval; ring).
   assert (Hz : str_eqb body [48%N] = true -> p = 0).
   { intros Eb. apply str_eqb_true in Eb. rewrite Eb in Hr. cbn in Hr. inversion Hr. subst. nia. }
+  pose proof (limit_denominator_closest vn vd maxd p q Hvn Hvd Hmax El) as Hclose.
   exists p, q.
   destruct (is_neg d); cbn [andb].
   - destruct (str_eqb body [48%N]) eqn:Eb.
